@@ -414,3 +414,107 @@ func TestConcV1CreateOneWinner(t *testing.T) {
 }
 
 var _ = context.Background
+
+// A write races with "failure on, then ClearTable": whatever the interleaving, the write either took effect before the
+// failure was switched on - then ClearTable, issued later, removed its item - or it was refused. The failure stays on
+// until every writer has returned, so the table is empty at the end of every round. An item left over means a write
+// was applied while the client was emulating a failure: no sequential order of the calls explains that (a call that
+// looks at the failure in one critical section and writes in another).
+func failureThenClear(t *testing.T, write func(i int) error, on, off func(), clear func() error, count func() (int, error)) {
+	var sink int64
+	deadline := time.Now().Add(budget())
+	applied, refused := 0, 0
+	const writers = 4
+	for round := 0; time.Now().Before(deadline); round++ {
+		done := make(chan error, writers)
+		for i := 0; i < writers; i++ {
+			go func(i int) { done <- write(i) }(i)
+		}
+		// let the writers get a varying distance into their calls
+		for spin := 0; spin < round%512; spin++ {
+			atomic.AddInt64(&sink, 1)
+		}
+		on()
+		if err := clear(); err != nil {
+			t.Fatal(err)
+		}
+		for i := 0; i < writers; i++ {
+			if err := <-done; err == nil {
+				applied++
+			} else {
+				refused++
+			}
+		}
+		off()
+		n, err := count()
+		if err != nil {
+			t.Fatal(err)
+		}
+		if n != 0 {
+			t.Fatalf("LINEARIZABILITY: round %d: %d item(s) written after the failure was switched on and the table cleared (%d writes applied in time, %d refused so far)", round, n, applied, refused)
+		}
+	}
+	t.Logf("%d writes applied before the failure, %d refused", applied, refused)
+}
+
+func TestConcV1FailureThenClear(t *testing.T) {
+	cl := c1.NewClient()
+	if err := c1.AddTable(cl, "tbl", "h", ""); err != nil {
+		t.Fatal(err)
+	}
+	write := func(i int) error {
+		key := map[string]*ddb1.AttributeValue{"h": {S: aws.String(fmt.Sprintf("k%d", i))}}
+		switch i % 3 {
+		case 0:
+			_, err := cl.PutItem(&ddb1.PutItemInput{TableName: aws.String("tbl"), Item: key})
+			return err
+		case 1:
+			_, err := cl.BatchWriteItem(&ddb1.BatchWriteItemInput{RequestItems: map[string][]*ddb1.WriteRequest{"tbl": {{PutRequest: &ddb1.PutRequest{Item: key}}}}})
+			return err
+		}
+		_, err := cl.UpdateItem(&ddb1.UpdateItemInput{TableName: aws.String("tbl"), Key: key, UpdateExpression: aws.String("ADD c :one"),
+			ExpressionAttributeValues: map[string]*ddb1.AttributeValue{":one": {N: aws.String("1")}}})
+		return err
+	}
+	failureThenClear(t, write,
+		func() { c1.EmulateFailure(cl, c1.FailureConditionDeprecated) }, func() { c1.EmulateFailure(cl, c1.FailureConditionNone) },
+		func() error { return c1.ClearTable(cl, "tbl") },
+		func() (int, error) {
+			o, err := cl.Scan(&ddb1.ScanInput{TableName: aws.String("tbl")})
+			if err != nil {
+				return 0, err
+			}
+			return len(o.Items), nil
+		})
+}
+
+func TestConcV2FailureThenClear(t *testing.T) {
+	cl := c2.NewClient()
+	if err := c2.AddTable(ctx, cl, "tbl", "h", ""); err != nil {
+		t.Fatal(err)
+	}
+	write := func(i int) error {
+		key := map[string]t2.AttributeValue{"h": &t2.AttributeValueMemberS{Value: fmt.Sprintf("k%d", i)}}
+		switch i % 3 {
+		case 0:
+			_, err := cl.PutItem(ctx, &ddb2.PutItemInput{TableName: aws.String("tbl"), Item: key})
+			return err
+		case 1:
+			_, err := cl.BatchWriteItem(ctx, &ddb2.BatchWriteItemInput{RequestItems: map[string][]t2.WriteRequest{"tbl": {{PutRequest: &t2.PutRequest{Item: key}}}}})
+			return err
+		}
+		_, err := cl.UpdateItem(ctx, &ddb2.UpdateItemInput{TableName: aws.String("tbl"), Key: key, UpdateExpression: aws.String("ADD c :one"),
+			ExpressionAttributeValues: map[string]t2.AttributeValue{":one": &t2.AttributeValueMemberN{Value: "1"}}})
+		return err
+	}
+	failureThenClear(t, write,
+		func() { c2.EmulateFailure(cl, c2.FailureConditionDeprecated) }, func() { c2.EmulateFailure(cl, c2.FailureConditionNone) },
+		func() error { return c2.ClearTable(cl, "tbl") },
+		func() (int, error) {
+			o, err := cl.Scan(ctx, &ddb2.ScanInput{TableName: aws.String("tbl")})
+			if err != nil {
+				return 0, err
+			}
+			return len(o.Items), nil
+		})
+}
